@@ -776,31 +776,41 @@ func (e *Exec) keyEq(a, b Val) *Term {
 	panic(&UnsupportedErr{Msg: fmt.Sprintf("map key of %T", a)})
 }
 
+func (e *Exec) pres(md *MapData, i int) *Term {
+	if md.Pres == nil || md.Pres[i] == nil {
+		return e.S.True
+	}
+	return md.Pres[i]
+}
+
 func (e *Exec) mapUpdate(st *State, m, k, v Val, where string) {
 	mv, md := e.mapData(st, m, where)
 	if md == nil {
 		e.abort(st, "panic", where, "assignment to entry in nil map")
 		return
 	}
-	nd := &MapData{Typ: md.Typ, Keys: append([]Val(nil), md.Keys...), Vals: append([]Val(nil), md.Vals...)}
-	if _, conc := e.keyConc(k); conc {
-		for i, kk := range nd.Keys {
-			eq := e.keyEq(kk, k)
-			if eq.IsTrue() {
-				nd.Vals[i] = v
-				st.Mem[mv.Obj] = nd
-				return
-			}
-			if !eq.IsFalse() {
-				e.unsupported(st, "map update with concrete key against symbolic stored key at "+where)
-			}
+	nd := &MapData{Typ: md.Typ, Keys: append([]Val(nil), md.Keys...), Vals: append([]Val(nil), md.Vals...), Pres: make([]*Term, len(md.Keys))}
+	for i := range md.Keys {
+		nd.Pres[i] = e.pres(md, i)
+	}
+	anyEq := e.S.False
+	for i, kk := range nd.Keys {
+		eq := e.S.And(e.keyEq(kk, k), nd.Pres[i])
+		if eq.IsFalse() {
+			continue
 		}
+		nd.Vals[i] = e.mergeVal(eq, v, nd.Vals[i])
+		anyEq = e.S.Or(anyEq, eq)
+		if eq.IsTrue() {
+			break
+		}
+	}
+	if !anyEq.IsTrue() {
 		nd.Keys = append(nd.Keys, k)
 		nd.Vals = append(nd.Vals, v)
-		st.Mem[mv.Obj] = nd
-		return
+		nd.Pres = append(nd.Pres, e.S.Not(anyEq))
 	}
-	e.unsupported(st, "map update with symbolic key at "+where)
+	st.Mem[mv.Obj] = nd
 }
 
 func (e *Exec) mapLookup(st *State, m, k Val, vt types.Type, where string) (Val, *Term) {
@@ -812,7 +822,7 @@ func (e *Exec) mapLookup(st *State, m, k Val, vt types.Type, where string) (Val,
 	res := zero
 	found := e.S.False
 	for i := len(md.Keys) - 1; i >= 0; i-- {
-		eq := e.keyEq(md.Keys[i], k)
+		eq := e.S.And(e.keyEq(md.Keys[i], k), e.pres(md, i))
 		if eq.IsFalse() {
 			continue
 		}
@@ -857,6 +867,11 @@ func (e *Exec) rangeInit(st *State, x *ssa.Range, where string) {
 		it := &rangeIter{}
 		if b.Obj != 0 {
 			md := st.Mem[b.Obj].(*MapData)
+			for i, k := range md.Keys {
+				if _, conc := e.keyConc(k); !conc || !e.pres(md, i).IsTrue() {
+					e.unsupported(st, "range over a map with symbolic keys at "+where)
+				}
+			}
 			for _, i := range sortMapKeys(md, e) {
 				it.keys = append(it.keys, md.Keys[i])
 				it.vals = append(it.vals, md.Vals[i])
